@@ -1043,8 +1043,9 @@ def derivative_curve(obj):
     pkl = helpers.curve_deriv_cpts(obj.dimension, obj.degree, obj.knotvector, obj.ctrlpts,
                                           rs=(0, obj.ctrlpts_size - 1), deriv_order=1)
 
-    # Generate the derivative curve
-    curve = obj.__class__()
+    # Generate the derivative curve. It shares the parametrization of the input curve: its knot vector must be kept as
+    # it is (the knot vector of an unclamped curve without its end knots is not defined on [0, 1] any more)
+    curve = obj.__class__(normalize_kv=False)
     curve.degree = obj.degree - 1
     curve.ctrlpts = pkl[1][0:-1]
     curve.knotvector = obj.knotvector[1:-1]
@@ -1332,7 +1333,10 @@ def derivative_surface(obj):
     for i in range(0, len(pkl[1][0]) - 1):
         ctrlpts2d_u.append(pkl[1][0][i])
 
+    # The derivative surfaces share the parametrization of the input surface: their knot vectors must be kept as
+    # they are (the knot vector of an unclamped surface without its end knots is not defined on [0, 1] any more)
     surf_u = copy.deepcopy(obj)
+    surf_u._kv_normalize = False
     surf_u.degree_u = obj.degree_u - 1
     surf_u.ctrlpts2d = ctrlpts2d_u
     surf_u.knotvector_u = obj.knotvector_u[1:-1]
@@ -1343,6 +1347,7 @@ def derivative_surface(obj):
         ctrlpts2d_v.append(pkl[0][1][i][0:-1])
 
     surf_v = copy.deepcopy(obj)
+    surf_v._kv_normalize = False
     surf_v.degree_v = obj.degree_v - 1
     surf_v.ctrlpts2d = ctrlpts2d_v
     surf_v.knotvector_v = obj.knotvector_v[1:-1]
@@ -1353,7 +1358,7 @@ def derivative_surface(obj):
         ctrlpts2d_uv.append(pkl[1][1][i][0:-1])
 
     # Generate the derivative curve
-    surf_uv = obj.__class__()
+    surf_uv = obj.__class__(normalize_kv=False)
     surf_uv.degree_u = obj.degree_u - 1
     surf_uv.degree_v = obj.degree_v - 1
     surf_uv.ctrlpts2d = ctrlpts2d_uv
